@@ -578,6 +578,78 @@ impl MutableArchive {
         let block_index = old_entry.block_index;
         let locale = old_entry.locale;
 
+        // The encryption key of a file is derived from its name: an encrypted file has to be
+        // re-encrypted under the key of the new name, otherwise it reads back as garbage.
+        if let Some(block) = self
+            .block_table
+            .as_ref()
+            .and_then(|t| t.entries().get(block_index as usize).copied())
+            && block.is_encrypted()
+        {
+            let key_of = |name: &str| {
+                let base = crate::crypto::file_key(name);
+                if block.flags & BlockEntry::FLAG_FIX_KEY != 0 {
+                    base.wrapping_add(block.file_pos) ^ block.file_size
+                } else {
+                    base
+                }
+            };
+            let (old_key, new_key) = (key_of(&old_name), key_of(&new_name));
+            // decrypt `data` with `from`, encrypt it with `to` (trailing len % 4 bytes are stored in the clear)
+            let recrypt = |data: &mut [u8], from: u32, to: u32| {
+                crate::decrypt_file_data(data, from);
+                let full = data.len() / 4 * 4;
+                let mut words: Vec<u32> = data[..full]
+                    .chunks_exact(4)
+                    .map(|c| u32::from_le_bytes([c[0], c[1], c[2], c[3]]))
+                    .collect();
+                encrypt_block(&mut words, to);
+                for (chunk, w) in data[..full].chunks_exact_mut(4).zip(&words) {
+                    chunk.copy_from_slice(&w.to_le_bytes());
+                }
+            };
+            let file_pos = self.archive.archive_offset() + block.file_pos as u64;
+            let mut data = vec![0u8; block.compressed_size as usize];
+            self.file.seek(SeekFrom::Start(file_pos))?;
+            self.file.read_exact(&mut data)?;
+            if block.is_single_unit() {
+                recrypt(&mut data, old_key, new_key);
+            } else {
+                // sectored file: sector i is encrypted with key + i, the sector offset table (present
+                // when the file is flagged compressed) with key - 1
+                let sector_size = self.archive.header().sector_size();
+                let sectors = (block.file_size as usize).div_ceil(sector_size);
+                let bounds: Vec<usize> = if block.is_compressed() {
+                    let entries = sectors + 1 + usize::from(block.flags & BlockEntry::FLAG_SECTOR_CRC != 0);
+                    if entries * 4 > data.len() {
+                        return Err(Error::Crypto(format!("cannot rename {old_name}: sector table out of range")));
+                    }
+                    let mut table = data[..entries * 4].to_vec();
+                    crate::decrypt_file_data(&mut table, old_key.wrapping_sub(1));
+                    let offs: Vec<usize> = table
+                        .chunks_exact(4)
+                        .map(|c| u32::from_le_bytes([c[0], c[1], c[2], c[3]]) as usize)
+                        .collect();
+                    if offs[..=sectors].windows(2).any(|w| w[0] > w[1]) || offs[sectors] > data.len() {
+                        return Err(Error::Crypto(format!("cannot rename {old_name}: invalid sector table")));
+                    }
+                    recrypt(&mut data[..entries * 4], old_key.wrapping_sub(1), new_key.wrapping_sub(1));
+                    offs[..=sectors].to_vec()
+                } else {
+                    (0..=sectors).map(|i| (i * sector_size).min(data.len())).collect()
+                };
+                for i in 0..sectors {
+                    recrypt(
+                        &mut data[bounds[i]..bounds[i + 1]],
+                        old_key.wrapping_add(i as u32),
+                        new_key.wrapping_add(i as u32),
+                    );
+                }
+            }
+            self.file.seek(SeekFrom::Start(file_pos))?;
+            self.file.write_all(&data)?;
+        }
+
         // Remove old hash entry
         if let Some(hash_table) = &mut self.hash_table {
             hash_table.get_mut(old_hash_index).unwrap().block_index = HashEntry::EMPTY_DELETED;
